@@ -161,5 +161,21 @@ def main(argv=None):
     return run.finish(tier, seed)
 
 
+def _main_guarded():
+    """A crash of the harness itself is never a verdict: exit 2 (inconclusive),
+    not Python's default exit status 1, which the interface reads as a
+    violation."""
+    try:
+        return main()
+    except SystemExit:
+        raise
+    except BaseException:  # noqa: BLE001
+        import traceback
+        traceback.print_exc()
+        print("[pvm] INCONCLUSIVE: the harness raised (see traceback); "
+              "no verdict", flush=True)
+        return 2
+
+
 if __name__ == "__main__":
-    sys.exit(main())
+    sys.exit(_main_guarded())
